@@ -359,6 +359,10 @@ def norm_index(i, n):
             return arith("+", i, n)
         return i
     if is_sym(i):
+        from . import values as _V
+        if not _V.SAFETY[0]:
+            # contract clauses index with in-range, non-negative indices only (stated convention)
+            return i
         return ite(compare("<", i, 0), arith("+", i, n), i)
     try:
         import numpy as np
